@@ -64,13 +64,36 @@ class An(reset.Analyzer):
         self.spec = spec
 
     def is_size(self, expr_nf, fn):
-        from ..rulelib import def_exprs
-        e = expr_nf
-        if re.match(r"^[a-z_][a-z0-9_]*$", e):
-            ds = def_exprs(fn, e)
-            if len(ds) == 1:
-                e = nf.nf(ds[0], casts=True)
-        return reset._norm(e, self.spec["aliases"]) == "N" or reset._norm(expr_nf, self.spec["aliases"]) == "N"
+        al = auto_aliases(self.facts, self.spec)
+        return reset._norm(expr_nf, al) == "N"
+
+
+_alias_cache = {}
+
+
+def auto_aliases(facts, spec):
+    """size aliases of a struct, derived from its constructor: the constructor's only integer parameter, self.<field> for
+    scalar fields initialised with it, self.<vec>.len() for vectors built with that size — plus the tabled extras"""
+    key = (id(facts), spec["name"])
+    if key in _alias_cache:
+        return _alias_cache[key]
+    al = list(spec["aliases"])
+    methods = methods_of(facts, spec["prefix"])
+    cfn = methods.get(spec["ctor"])
+    if cfn is not None:
+        ints = [hirq.show_pat(p["pat"]) for p in cfn.get("params", []) if re.match(r"^(usize|u32|u64|u16)$", p["ty"])]
+        if len(ints) == 1:
+            al.append(ints[0])
+            # u32 parameter converted to usize: `let m = m_s as usize` is resolved by the normal form (casts dropped)
+        _alias_cache[key] = al
+        cs = reset.ctor_specs(cfn, spec["name"], al)
+        for f, sp in cs.items():
+            if sp.kind == "scalar" and sp.val == "N":
+                al.append("self.%s" % f)
+            if sp.kind in ("fill", "iota") and sp.size == "N":
+                al.append("self.%s.len()" % f)
+    _alias_cache[key] = al
+    return al
 
 
 def fy_lazy_side_condition(facts):
@@ -126,13 +149,7 @@ def check_struct(ctx, facts, spec, analyzers, verified):
                           % (f, M[f][:3], L[f][:3], spec["reset"]))
     # value agreement
     cfn = methods[spec["ctor"]]
-    cs = reset.ctor_specs(cfn, name, spec["aliases"])
-    # self.<field> aliases from simple constructor initialisers
-    extra = []
-    for f, sp in cs.items():
-        if sp.kind == "scalar" and (sp.val == "N"):
-            extra.append("self.%s" % f)
-    aliases = spec["aliases"] + extra
+    aliases = auto_aliases(facts, spec)
     cs = reset.ctor_specs(cfn, name, aliases)
     field_alias = {}
     for f, sp in cs.items():
